@@ -231,6 +231,9 @@ func (na *plainMap__Assembler) AssignNode(v datamodel.Node) error {
 		if err != nil {
 			return err
 		}
+		if v.IsAbsent() {
+			continue // an absent value (an unset optional field of a typed struct) is not an entry.
+		}
 		if err := na.AssembleKey().AssignNode(k); err != nil {
 			return err
 		}
